@@ -191,10 +191,31 @@ package kube
 //@ func (*ingressBuilder).update
 //@   trusted
 //@   modifies obj.ObjectMeta.Labels, obj.Spec.Rules
-//@ func (*netPolBuilder).create
+// network policies: a per-service policy opens (to any source) exactly one port per expose of the service that is
+// global and not served through the ingress controller - never a port the tenant did not expose globally
+//@ import manifest "github.com/ovrclk/akash/manifest"
+//@ import intstr "k8s.io/apimachinery/pkg/util/intstr"
+//@ spec openCount(es: []manifest.ServiceExpose, k: int): int = ite(k <= 0, 0, openCount(es, k - 1) + ite(es[k-1].Global && !(es[k-1].Proto == "TCP" && es[k-1].Global && ite(es[k-1].ExternalPort == 0, es[k-1].Port, es[k-1].ExternalPort) == 80), 1, 0))
+//@ extern intstr.FromInt(val)
+//@   pure
+//@ func (*builder).labels
 //@   trusted
 //@   modifies nothing
+//@   ensures fresh(result)
+//@ func (*netPolBuilder).create
+//@   requires b != nil && b.group != nil
+//@   modifies nothing
+//@   loop 1 modifies result[**]
+//@   loop 1 invariant 0 <= iter && 0 <= len(result) && len(result) <= cap(result) && fresh(result)
+//@   loop 1 invariant arr(result) == atloop(arr(result)) || freshloop(result)
+//@   loop 1 invariant [ns] forall k: int {result[k]} :: 0 <= k && k < len(result) ==> result[k] != nil && result[k].ObjectMeta.Namespace == nsOf(b.lid)
+//@   loop 2 modifies ports[**]
+//@   loop 2 invariant 0 <= iter && iter <= len(ranged) && 0 <= len(ports) && len(ports) <= cap(ports) && fresh(ports)
+//@   loop 2 invariant arr(ports) == atloop(arr(ports)) || freshloop(ports)
+//@   loop 2 invariant [onlyglobal] len(ports) == atloopheap(openCount(ranged, iter))
+//@   loop 2 invariant [ns] forall k: int {result[k]} :: 0 <= k && k < len(result) ==> result[k] != nil && result[k].ObjectMeta.Namespace == nsOf(b.lid)
 //@   ensures 0 <= len(result0)
+//@   ensures [ns] forall k: int {result0[k]} :: 0 <= k && k < len(result0) ==> result0[k] != nil && result0[k].ObjectMeta.Namespace == nsOf(b.lid)
 //@ func (*netPolBuilder).update
 //@   trusted
 //@   modifies obj.ObjectMeta.Name, obj.ObjectMeta.Labels
@@ -222,7 +243,7 @@ package kube
 //@   oncall v1.(NetworkingV1Interface).Ingresses 2 assert callarg0 == nsOf(b.lid)
 //@   oncall v1.(NetworkingV1Interface).Ingresses 3 assert callarg0 == nsOf(b.lid)
 //@ func applyNetPolicies
-//@   requires b != nil
+//@   requires b != nil && b.group != nil
 //@   oncall v1.(NetworkingV1Interface).NetworkPolicies 1 assert callarg0 == nsOf(b.lid)
 //@   oncall v1.(NetworkingV1Interface).NetworkPolicies 2 assert callarg0 == nsOf(b.lid)
 //@   oncall v1.(NetworkingV1Interface).NetworkPolicies 3 assert callarg0 == nsOf(b.lid)
@@ -234,4 +255,4 @@ package kube
 //@   oncall v1.(AkashV1Interface).Manifests 2 assert callarg0 == b.mns
 //@   oncall v1.(AkashV1Interface).Manifests 3 assert callarg0 == b.mns
 
-//@ property C11 := (*deploymentBuilder).container#*, (*deploymentBuilder).create#*, (*deploymentBuilder).update#*, (*builder).ns#*, applyDeployment#*, applyService#*, applyIngress#*, applyNetPolicies#*, applyManifest#*
+//@ property C11 := (*deploymentBuilder).container#*, (*deploymentBuilder).create#*, (*deploymentBuilder).update#*, (*builder).ns#*, applyDeployment#*, applyService#*, applyIngress#*, applyNetPolicies#*, applyManifest#*, (*netPolBuilder).create#*
